@@ -18,6 +18,7 @@ import (
 	"fmt"
 	"os"
 	"path"
+	"regexp"
 	"runtime"
 	"sort"
 	"strings"
@@ -54,6 +55,9 @@ type obsT struct {
 	PanicAt  string
 }
 
+// classify reads an error class off the message TEXT.  It is a note for the
+// evidence and for the wording of reports only: no oracle and no comparison
+// with the model depends on it (a reworded diagnostic must not alarm).
 func classify(msg string) int {
 	switch {
 	case strings.Contains(msg, "EOF encountered while expecting line continuation"):
@@ -72,14 +76,12 @@ func classify(msg string) int {
 	return 7
 }
 
+var tildeNameRe = regexp.MustCompile(`~\w+~`)
+
+// undefinedNames lists the ~name~ tokens a message mentions, whatever words
+// stand around them.
 func undefinedNames(msg string) []string {
-	var ns []string
-	for _, l := range strings.Split(msg, "\n") {
-		if i := strings.Index(l, "undefined parameter: "); i >= 0 {
-			ns = append(ns, l[i+len("undefined parameter: "):])
-		}
-	}
-	return ns
+	return tildeNameRe.FindAllString(msg, -1)
 }
 
 // toModel maps a path reported by the hook ("/r/t/..." already) unchanged.
@@ -178,9 +180,7 @@ func observeLocal(in *input) obsT {
 		default:
 			if r.HasPos {
 				o.Cls = classify(r.ErrShort)
-				if o.Cls == 4 {
-					o.Names = undefinedNames(r.ErrShort)
-				}
+				o.Names = undefinedNames(strings.TrimPrefix(r.ErrShort, fmt.Sprintf("%s:%d: ", strings.Replace(r.Pos.File, "/r/t", "<tmp>", 1), r.Pos.Line)))
 			} else {
 				o.Cls = 31
 			}
